@@ -10,6 +10,9 @@
 
 #[macro_use]
 mod macros;
+#[cfg(librqbit_utp_verif)]
+#[macro_use]
+pub mod verif;
 mod congestion;
 mod constants;
 #[cfg(test)]
@@ -44,5 +47,7 @@ pub use stream::UtpStream;
 pub use stream_rx::UtpStreamReadHalf;
 pub use stream_tx::UtpStreamWriteHalf;
 pub use traits::Transport;
+#[cfg(librqbit_utp_verif)]
+pub use traits::{DefaultUtpEnvironment, UtpEnvironment};
 
 type Payload = Vec<u8>;
